@@ -1,11 +1,11 @@
 /-
-C01 — `Shutdown(ctx)` whose context ends (label `sdTimeout`, Model.lean): the exclusion predicate of known finding F44,
+C01 — `Shutdown(ctx)` whose context ends (label `sdTimeout`, Model.lean): the exclusion predicate of known finding F47,
 shared by the theorems (Props.lean) and the driver (Main.lean).
 -/
 import Otel.C01.Model
 namespace Otel.C01
 
-/-- F44 exclusion predicate: the context of the Shutdown call that won `stopOnce` ended before the shutdown goroutine
+/-- F47 exclusion predicate: the context of the Shutdown call that won `stopOnce` ended before the shutdown goroutine
 had finished; that call returned ctx.Err(), `stopOnce` is done, and every Shutdown call that waits (or arrives later)
 returns nil at once while the goroutine may still be draining the queue -/
 def ShutdownTimedOut_applies (s : St) : Bool := s.sdRetErr
